@@ -297,15 +297,30 @@ def wave_wide(rng, k=None):
             w.s[0], w.s[1], w.s[2] = k.s0, k.s1, k.s2
         sims.append(w)
     tc = wave_sim.TMAX if k.tcap is None else k.tcap
-    for step, call in enumerate(['s_to_c', 'c_prop', 'c_to_s', 's_ppo_to_ppi', 's_to_c', 'c_prop', 'c_to_s']):
+    steps = ['s_to_c', 'c_prop', 'c_to_s', 's_ppo_to_ppi', 's_to_c', 'c_prop', 'c_to_s']
+    # half of the sets: the SAME simulator objects first run a propagation restricted to the first j lanes (j mostly below one block
+    # of 32 lanes), then the unrestricted sequence -- a launch configuration or anything else remembered from the restricted call
+    # must not leak into the next one
+    j = getattr(k, 'first_lanes', None)
+    if j is None and not hasattr(k, 'first_lanes'):
+        j = rng.choice([None, rng.randint(1, 8), rng.randint(1, 8), rng.randint(1, k.sims)])
+    k.first_lanes = j
+    desc['first_lanes'] = j
+    if j is not None:
+        steps = ['s_to_c', ('c_prop', j), 'c_to_s'] + steps
+    for step, call in enumerate(steps):
         for w in sims:
             with contextlib.redirect_stdout(io.StringIO()):
                 if call == 'c_to_s':
                     w.c_to_s(time=tc)
                 elif call == 's_ppo_to_ppi':
                     w.s_ppo_to_ppi(time=1.0)
+                elif isinstance(call, tuple):
+                    w.c_prop(sims=call[1])
                 else:
                     getattr(w, call)()
+        if isinstance(call, tuple):
+            call = f'c_prop(sims={call[1]})'
         a, b = np.asarray(sims[0].s).copy(), np.asarray(sims[1].s).copy()
         # stimulus rows 0..2 matter only where a PI/PPI slot exists (the CPU transfer also rewrites the rows of state elements
         # without any output line, the GPU kernel skips them: neither is ever read)
@@ -417,7 +432,9 @@ def replay(rp):
         return what is not None
     if inp.get('kind') == 'wavewide' and 'circuit' in inp:
         try:
-            desc, what = wave_wide(random.Random(0), wk.from_description(inp))
+            kk = wk.from_description(inp)
+            kk.first_lanes = inp.get('first_lanes')
+            desc, what = wave_wide(random.Random(0), kk)
         except Exception:
             return True
         return what is not None
